@@ -321,7 +321,7 @@ def evaluate(wd, files, pkgdir="model", cfg=None, pyimport=None, want=("cpp", "p
     """Writes the tree, validates, generates, checks each target. Returns {"accepted":bool, "fails":[(target, stage, detail)]}."""
     cfg = dict(DEFAULT_CFG, **(cfg or {}))
     shutil.rmtree(wd, ignore_errors=True)
-    build.write_tree(wd, files)
+    build.write_tree(wd, {k: v for k, v in files.items() if not k.startswith("__")})
     cwd = os.path.join(wd, pkgdir)
     rc, out, err = build.yardl(["validate"] + cli_overrides(cfg), cwd=cwd)
     if rc == 1 and "panic" not in err and "goroutine" not in err:
@@ -372,6 +372,11 @@ def evaluate(wd, files, pkgdir="model", cfg=None, pyimport=None, want=("cpp", "p
             p = subprocess.run([build.PY, "-c", code2], capture_output=True, text=True, cwd=wd, env=dict(os.environ, PYTHONDONTWRITEBYTECODE="1"))
             if p.returncode != 0:
                 fails.append(("python", "instantiate", (p.stdout.strip().split("\n")[-1:] + p.stderr.strip().split("\n")[-2:])[0][-400:] if p.stdout.strip() else " | ".join(p.stderr.strip().split("\n")[-3:])[-400:]))
+            elif files.get("__py_probe__"):
+                # model-specific use of the imported package (e.g. a value round trip through the generated binary writer/reader)
+                p = subprocess.run([build.PY, "-c", code + files["__py_probe__"]], capture_output=True, text=True, cwd=wd, env=dict(os.environ, PYTHONDONTWRITEBYTECODE="1"))
+                if p.returncode != 0:
+                    fails.append(("python", "use", " | ".join((p.stdout.strip().split("\n")[-1:] + p.stderr.strip().split("\n")[-2:]))[-400:]))
     if "matlab" in targets and "matlab" in want:
         for d in matlab_lint(os.path.join(outdir, "matlab")):
             fails.append(("matlab", "lint", d))
@@ -1073,9 +1078,46 @@ def part_b(chk, quick):
 
 
 # ------------------------------------------------------------------------------------------------------------ part C: options
+MAP_KEY_PROBE = """
+import io, datetime
+import bq
+K = {"bool": [True, False], "string": ["a", ""], "date": [datetime.date(2020, 1, 2), datetime.date(1970, 1, 1)],
+     "time": [bq.Time.from_components(1, 2, 3), bq.Time(0)], "datetime": [bq.DateTime.from_components(2020, 1, 2, 3, 4, 5), bq.DateTime(0)],
+     "float32": [1.5, 0.0], "float64": [1.5, 0.0], "complexfloat32": [1 + 2j, 0j], "complexfloat64": [1 + 2j, 0j]}.get(%r, [1, 0])
+val = bq.Rk(m={K[0]: 7, K[1]: 8})
+buf = io.BytesIO()
+with bq.BinaryPkWriter(buf) as w:
+    w.write_a(val)
+    w.write_b([{K[0]: 1}, {}])
+buf.seek(0)
+with bq.BinaryPkReader(buf) as r:
+    got = r.read_a()
+    gs = list(r.read_b())
+if got != val or len(got.m) != 2 or sorted(got.m.values()) != [7, 8] or len(gs) != 2 or list(gs[0].values()) != [1]:
+    print("map with %%s keys does not survive a binary round trip: wrote %%r read %%r / %%r" %% (%r, val.m, got.m, gs))
+    sys.exit(1)
+"""
+SCALAR_PRIMS = ["bool", "int8", "uint8", "int16", "uint16", "int32", "uint32", "int64", "uint64", "size", "float32", "float64",
+                "complexfloat32", "complexfloat64", "string", "date", "time", "datetime"]
+
+
+def map_key_models():
+    """One model per scalar primitive used as a map key ("keys are required to be scalar primitive types"): as a record field, a
+    protocol step and a stream item."""
+    out = {}
+    for k in SCALAR_PRIMS:
+        out["map-key-" + k] = {"model/model.yml": "Rk: !record\n  fields:\n    m: %s->int\nPk: !protocol\n  sequence:\n    a: Rk\n    b: !stream\n      items: !map\n        keys: %s\n        values: int\n" % (k, k),
+                               "__py_probe__": MAP_KEY_PROBE % (k, k)}
+    return out
+
+
 def option_models():
     base = base_model()
     types_only = base[:base.index("Pq: !protocol")]
+    return dict(_option_models(base, types_only), **map_key_models())
+
+
+def _option_models(base, types_only):
     return {
         "baseline": {"model/model.yml": base},
         "types-only": {"model/model.yml": types_only},
@@ -1111,6 +1153,8 @@ def part_c(chk, quick):
             for nd, h5, cm, ov in cppo:
                 for pn in pyo:
                     for via in (False, True):
+                        if quick and mname.startswith("map-key-") and not (ts == all_t and (nd, h5, cm, ov, pn, via) == (True, True, True, True, True, False)):
+                            continue
                         if quick:
                             full = ts == all_t and mname == "baseline"
                             corner = (nd, h5, cm, ov) in ((True, True, True, True), (False, False, False, True), (None,) * 4) and pn in (True, None)
@@ -1144,7 +1188,7 @@ def part_c(chk, quick):
                     cd = os.path.join(out, "cpp")
                     for sub, on in (("ndjson", cfg["ndjson"]), ("hdf5", cfg["hdf5"])):
                         has = os.path.isdir(os.path.join(cd, sub))
-                        has_protocols = "Pq" in files["model/model.yml"] or "Pz" in files["model/model.yml"]
+                        has_protocols = any(p_ in files["model/model.yml"] for p_ in ("Pq", "Pz", "Pk: !protocol"))
                         if has and not on:
                             extra.append(("cpp", "options", "%s/ written although its option is false" % sub))
                         if on and has_protocols and not has:
